@@ -53,8 +53,10 @@ def go_json_float(f):
 
 
 def floats_of(v, acc):
+    """collects the floats of a value into the dict acc: Go text (%v) -> the float.  (A dict keyed by TEXT: 0.0 and
+    -0.0 are equal as Python floats and would share one slot of a set.)"""
     if isinstance(v, float):
-        acc.add(v)
+        acc[go_float_str(v)] = v
     elif isinstance(v, dict):
         for x in v.values():
             floats_of(x, acc)
@@ -91,10 +93,10 @@ def evaluate_enc(rep, cases):
     gops, mops = [], []
     for i, c in enumerate(cases):
         w = [to_wire(d) for d in c["docs"]]
-        fl = set()
+        fl = {}
         for d in c["docs"]:
             floats_of(d, fl)
-        jf = {go_float_str(f): go_json_float(f) for f in fl}
+        jf = {k: go_json_float(f) for k, f in fl.items()}
         gops.append({"op": "format", "id": i, "format": "json", "encode": w})
         mops.append({"op": "jsonenc", "id": i, "docs": w, "jf": jf})
         gops.append({"op": "format", "id": f"p{i}", "format": "json-pretty", "encode": w})
